@@ -114,6 +114,13 @@ class Kernel:
         self.time_base = start_time
         self.last_time = start_time
 
+    def set_time(self, t: float):
+        """Harness only: put the virtual clock at an arbitrary instant."""
+        self.now = t
+        self.time_base = t
+        self.time_reads = 0
+        self.last_time = t
+
     # ---- installation -----------------------------------------------------
     def install(self):
         global _current
